@@ -585,8 +585,22 @@ def iter_domain(ip, st, it):
 @S("re:^<std::slice::Iter<'a, T> as std::iter::Iterator>::(all|any)$", 'std::iter::Iterator::all', 'std::iter::Iterator::any')
 def s_all_any(ip, st, fr, name, args, c, site):
     r = args[0]
-    it = ip.load(st, r.cell, r.path)
+    it = ip.load(st, r.cell, r.path) if isinstance(r, X.Ref) else r
     kind = 'all' if name.endswith('all') else 'any'
+    if isinstance(it, X.Sym):
+        # a user-defined iterator (opaque stream of items)
+        dom = ('items', it.term)
+        bound = st.fresh_var('k', 'usize')
+        cv = args[1]
+        while isinstance(cv, X.Ref):
+            cv = ip.load(st, cv.cell, cv.path)
+        cfn = ip.crate.fns.get(cv.path) if isinstance(cv, X.Clo) else None
+        ety = cfn.locals[2]['ty'] if cfn is not None and len(cfn.locals) > 2 else None
+        elem = ip.sym_value(st, ('elem', dom, bound), ety)
+        body = ip.eval_closure(st, args[1], [elem], site)
+        q = ('quant', kind, dom, bound, body)
+        T.typed(q, 'bool')
+        return one(q)
     bound, body = closure_on_elem(ip, st, fr, it, args[1], site)
     dom = iter_domain(ip, st, it)
     q = ('quant', kind, dom, bound, body)
@@ -597,9 +611,20 @@ def s_all_any(ip, st, fr, name, args, c, site):
     return one(q)
 
 
+def as_iter(ip, st, v):
+    """view an opaque (user-defined) iterator object as an abstract stream of its items"""
+    if isinstance(v, X.Iter):
+        return v
+    if isinstance(v, X.Sym):
+        t = ('items', v.term)
+        return X.Iter(ref_to(X.Sym(t, '[?]')), I(0), T.typed(('len', t), 'usize'), ('owned',))
+    raise X.Unanalysable('not an iterator: %r' % (v,))
+
+
 @S('std::iter::Iterator::map')
 def s_map(ip, st, fr, name, args, c, site):
     it, clo = args
+    it = as_iter(ip, st, it)
     return one(X.Iter(it.base, it.pos, it.end, it.kind + ('map',), it.extra, it.fns + [clo]))
 
 
@@ -678,9 +703,7 @@ def s_chars_next(ip, st, fr, name, args, c, site):
 
 @S('std::iter::Iterator::collect')
 def s_collect(ip, st, fr, name, args, c, site):
-    it = args[0]
-    if not isinstance(it, X.Iter):
-        raise X.Unanalysable('collect of %r' % (it,), site)
+    it = as_iter(ip, st, args[0])
     if 'rev' in it.kind or 'filter' in it.kind or 'enumerate' in it.kind:
         raise X.Unanalysable('collect after %r' % (it.kind,), site)
     rty = c['generics'][1] if len(c.get('generics', [])) > 1 else 'std::vec::Vec<?>'
